@@ -209,4 +209,11 @@ def obligations(repo):
     obs += dyn_generic("C20", "C20.dyn")
     obs += dyn_struct("C20", "C20.dyn")
     obs += dyn_push_struct("C20", "C20.dyn")
+    import os, sys
+    sys.path.insert(0, os.path.dirname(os.path.abspath(__file__)))
+    try:
+        import c20_tmpl
+        obs += c20_tmpl.tmpl_obligations("C20")
+    except ImportError:
+        pass
     return obs
